@@ -396,7 +396,7 @@ def file_state(d, i):
     return h.hexdigest()
 
 
-def pick_real_kills(gtrace, n, rnd, count):
+def pick_real_kills(gtrace, n, rnd, count, inside=0):
     """statement boundaries at which a real child process is killed: inside case transactions, just before
     and just after their COMMIT, during start-up, after the last statement, and random ones"""
     inter = []
@@ -406,11 +406,15 @@ def pick_real_kills(gtrace, n, rnd, count):
         if t[0] == 'UM':
             inter += [k + 1, k + 2]
     ks = [n] if rnd.random() < 0.5 else []
+    if inside:
+        # every boundary that lies between a case INSERT and its COMMIT (a transaction larger than SQLite's
+        # page cache has spilled to the file by then: the reader must roll back a hot journal)
+        ks += [k + 1 for k, (_, t) in enumerate(gtrace) if t[0] in ('IC', 'IG')][:inside]
     while len(ks) < count and (inter or n):
         k = rnd.choice(inter) if inter and rnd.random() < 0.75 else rnd.randrange(n + 1)
         if 0 <= k <= n and k not in ks:
             ks.append(k)
-    return sorted(ks)
+    return sorted(set(ks))
 
 
 def handle_in(c, base):
@@ -441,6 +445,11 @@ def handle_in(c, base):
     def check_point(d, k, label, toks_of=None):
         for i in range(nf):
             kf = sum(1 for f, _ in gtrace[:k] if f == i)
+            jp = os.path.join(d, 'rec%d.sql-journal' % i)
+            if os.path.exists(jp) and os.path.getsize(jp) > 512:
+                stats['hot_journals'] = stats.get('hot_journals', 0) + 1
+                if label.startswith('process killed'):
+                    stats['hot_journals_real_kill'] = stats.get('hot_journals_real_kill', 0) + 1
             key = (i, file_state(d, i))
             if key not in cache:
                 cache[key] = observe(os.path.join(d, 'rec%d.sql' % i))
@@ -463,7 +472,7 @@ def handle_in(c, base):
     t2 = time.time()
     # real deaths: os._exit inside the trace callback in a child process
     rnd = random.Random(c.get('seed', 0))
-    for k in pick_real_kills(gtrace, n, rnd, c.get('real_kills', 4)):
+    for k in pick_real_kills(gtrace, n, rnd, c.get('real_kills', 4), c.get('kill_inside_txn', 0)):
         d = os.path.join(base, 'r%d' % k)
         rc = spawn(c, d, kill_at=k if k < n else None, exit_at_end=(k >= n))
         tr = read_trace(d, nf)
